@@ -2537,7 +2537,7 @@ def preprocess_file(
             # This also does not allow for multiline argument list definitions.
             # if match.group(3):
             #     def_name += match.group(3)
-            if (match.group(1) == "define") and (def_name not in defs_tmp):
+            if match.group(1) == "define":
                 eq_ind = line[match.end(0) :].find(" ")
                 if eq_ind >= 0:
                     # Handle multiline macros
@@ -2554,6 +2554,8 @@ def preprocess_file(
                     def_value = (match.group(4), def_value)
 
                 defs_tmp[def_name] = def_value
+                # A redefinition replaces the body (like cpp, which only warns)
+                def_regexes.pop(def_name, None)
             elif (match.group(1) == "undef") and (def_name in defs_tmp):
                 defs_tmp.pop(def_name, None)
                 # A later #define of the same name must not reuse the old body
